@@ -5,17 +5,24 @@ import os
 
 HERE = os.path.dirname(os.path.dirname(os.path.abspath(__file__)))
 
-# property -> (technique, level text, level note, design ref)
-CLAIMED = {}
-NOT_YET = {}
 
 
 def load():
-    import importlib.util
-    spec = importlib.util.spec_from_file_location('claims', os.path.join(HERE, 'tools', 'claims.py'))
-    m = importlib.util.module_from_spec(spec)
-    spec.loader.exec_module(m)
-    return m.CLAIMED, m.NOT_CLAIMED
+    claimed = {}
+    d = os.path.join(HERE, 'claims')
+    for nm in sorted(os.listdir(d)):
+        if nm.endswith('.json'):
+            claimed[nm[:-5]] = json.load(open(os.path.join(d, nm)))
+    na_path = os.path.join(HERE, 'claims', 'not_applicable.txt')
+    reasons = {}
+    if os.path.exists(na_path):
+        for line in open(na_path):
+            if line.strip() and not line.startswith('#'):
+                pid, reason = line.strip().split(' ', 1)
+                reasons[pid] = reason
+    pending = ('check not built yet (the property is within reach of the technique; see DESIGN.md section 4)')
+    not_claimed = {f'C{n:02d}': reasons.get(f'C{n:02d}', pending) for n in range(1, 21) if f'C{n:02d}' not in claimed}
+    return claimed, not_claimed
 
 
 def main():
